@@ -217,7 +217,7 @@ func (it *TxnIterator) advance() {
 		}
 		// Bookkeeping the engine stores in the user keyspace (the value-log discard
 		// statistics) is not part of anyone's snapshot.
-		if !it.opt.InternalAccess && bytes.HasPrefix(userKey, internalKeyPrefix) {
+		if !it.opt.InternalAccess && isBookkeepingKey(userKey) {
 			it.iitr.Next()
 			continue
 		}
